@@ -189,10 +189,16 @@ public:
   void removeBack(usize size)
   {
     if(bufferStart + size >= bufferEnd)
+    {
       bufferStart = bufferEnd = buffer ? buffer : (byte*)&_capacity;
+      *bufferEnd = 0;
+    }
     else
+    {
       bufferEnd -= size;
-    *bufferEnd = 0;
+      if(buffer)
+        *bufferEnd = 0;
+    }
   }
 
   usize size() const {return bufferEnd - bufferStart;}
